@@ -20,6 +20,7 @@ _o_float = builtins.float
 _o_abs = builtins.abs
 _o_sum = builtins.sum
 _o_round = builtins.round
+_o_str = builtins.str
 
 
 class Abort(BaseException):
@@ -674,6 +675,78 @@ class SymRecip:
         return "SymRecip(%s)" % self.inv
 
 
+class SymName:
+    """a string drawn from a finite alphabet, given by a symbolic index. Equality, membership in wrapped constant sets
+    (SymSet), startswith and substring tests stay symbolic; str()/format() fork over the members still feasible."""
+    __slots__ = ("idx", "names")
+    _sx_sym = True
+
+    def __init__(self, idx, names):
+        self.idx = idx.z if type(idx) is SymInt else idx
+        self.names = names
+
+    def _among(self, pred):
+        hits = [i for i, nm in enumerate(self.names) if pred(nm)]
+        if not hits:
+            return SymBool(z3.BoolVal(False))
+        return SymBool(z3.Or([self.idx == i for i in hits]))
+
+    def __eq__(self, o):
+        if type(o) is SymName:
+            if o.names is self.names:
+                return SymBool(self.idx == o.idx)
+            return SymBool(z3.Or([z3.And(self.idx == i, o.idx == j) for i, a in enumerate(self.names)
+                                  for j, b in enumerate(o.names) if a == b] or [z3.BoolVal(False)]))
+        if _o_isinstance(o, str):
+            return self._among(lambda nm: nm == o)
+        return NotImplemented
+
+    def __ne__(self, o):
+        r = self.__eq__(o)
+        return r if r is NotImplemented else SymBool(z3.Not(r.z))
+
+    def startswith(self, prefix):
+        return self._among(lambda nm: nm.startswith(prefix))
+
+    def endswith(self, suffix):
+        return self._among(lambda nm: nm.endswith(suffix))
+
+    def __contains__(self, sub):
+        return True if self._among(lambda nm: sub in nm) else False
+
+    def __hash__(self):
+        raise Concretised("hash of a symbolic name (native set/dict lookup)")
+
+    def concretise(self):
+        for i, nm in enumerate(self.names[:-1]):
+            if ENG.branch(self.idx == i):
+                return nm
+        return self.names[-1]
+
+    def __str__(self):
+        return self.concretise()
+
+    def __format__(self, spec):
+        return format(self.concretise(), spec)
+
+    def __repr__(self):
+        return "SymName(%s)" % self.idx
+
+
+class SymSet(frozenset):
+    """a module-level constant set re-wrapped so that membership of a SymName stays symbolic (data only, no logic)"""
+    def __contains__(self, x):
+        if type(x) is SymName:
+            return x._among(lambda nm: frozenset.__contains__(self, nm))
+        return frozenset.__contains__(self, x)
+
+    def union(self, *others):
+        out = set(self)
+        for o in others:
+            out |= set(o)
+        return SymSet(out)
+
+
 def _int_from_text(text):
     tok = ENG.token_back.get(text.strip())
     if tok is not None:
@@ -740,6 +813,8 @@ def sx_isinstance(obj, types):
         return _o_isinstance(True, types)
     if t is SymReal:
         return _o_isinstance(0.5, types)
+    if t is SymName:
+        return _o_isinstance("", types)
     return False
 
 
@@ -826,6 +901,25 @@ class sx_float(_o_float, metaclass=_FloatMeta):
 sx_float.__name__ = "float"
 
 
+class _StrMeta(type):
+    def __instancecheck__(cls, obj):
+        return _o_isinstance(obj, _o_str) or type(obj) is SymName
+
+    def __subclasscheck__(cls, sub):
+        return issubclass(sub, _o_str)
+
+
+class sx_str(str, metaclass=_StrMeta):
+    """stands in for the name `str` inside the modules under test: str(symbolic name) keeps the name symbolic"""
+    def __new__(cls, x="", *a):
+        if type(x) is SymName and not a:
+            return x
+        return _o_str(x, *a)
+
+
+sx_str.__name__ = "str"
+
+
 def sx_round(x, nd=None):
     if type(x) in _SYM_TYPES:
         raise Concretised("round() of symbolic value")
@@ -845,6 +939,7 @@ INJECT = {
     "int": sx_int,
     "float": sx_float,
     "round": sx_round,
+    "str": sx_str,
 }
 
 _installed = False
